@@ -97,13 +97,17 @@ def natOfBytes (bs : List Nat) : Nat := bs.foldl (fun acc b => acc * 256 + b) 0
 def bytesOfNat (n : Nat) (len : Nat) : List Nat :=
   (List.range len).map fun i => n / 256 ^ (len - 1 - i) % 256
 
-/-- a midstate / Merkle root as one 256-bit natural -/
-def natOfState (st : List Nat) : Nat := natOfBytes (bytesOfWords st)
-def stateOfNat (n : Nat) : List Nat := wordsOfBytes (bytesOfNat n 32)
+/-- a midstate / Merkle root as one 256-bit natural (eight big-endian 32-bit words) -/
+def natOfState (st : List Nat) : Nat := st.foldl (fun acc w => acc <<< 32 ||| w) 0
+
+/-- the eight words of a 256-bit natural -/
+def stateOfNat (n : Nat) : List Nat :=
+  [(n >>> 224) % M32, (n >>> 192) % M32, (n >>> 160) % M32, (n >>> 128) % M32,
+   (n >>> 96) % M32, (n >>> 64) % M32, (n >>> 32) % M32, n % M32]
 
 /-- `Midstate::zz_update_2x32`: one compression of the 64-byte block `left ‖ right` -/
 def update2 (iv left right : Nat) : Nat :=
-  natOfState (compress (stateOfNat iv) (wordsOfBytes (bytesOfNat left 32 ++ bytesOfNat right 32)))
+  natOfState (compress (stateOfNat iv) (stateOfNat left ++ stateOfNat right))
 
 /-- BIP-340 tagged-hash midstate: state after the block `sha256(tag) ‖ sha256(tag)` -/
 def tagIV (tag : List Nat) : Nat :=
